@@ -1,4 +1,5 @@
 import Sif.Proofs.C01Lppd
+import Sif.Proofs.C01Exact
 import Sif.Model.Clp.Machine
 /-
   C01 — AMM solvency: for every token the coins held by the liquidity-pool module account cover
@@ -91,6 +92,82 @@ theorem reachable_solvent (ops : List Op) (s : St) (hinv : Solv s) (hok : RunOK 
 
 theorem reachable_solvent_from_genesis (ops : List Op) (hok : RunOK {} ops) : Solv (run {} ops) :=
   reachable_solvent ops {} solv_init hok
+
+/-! ### exact equality (the "apart from the decommission remainder, exactly equal" half) -/
+
+/-- the user messages other than a decommission, signed by ordinary accounts, and the bookkeeping operations
+    of the machine (height, parameters) -/
+def UserMsg : Op → Prop
+  | .create a _ _ _ | .add a _ _ _ | .remove a _ _ | .removeUnits a _ _ | .swap a _ _ _ _ | .bucket a _ _ => a ≠ clpAcct
+  | .setHeight _ | .setParams _ => True
+  | _ => False
+
+/-- full statement of the exact half: along every history the module account holds, for every token, exactly
+    the recorded amounts plus what the decommissions of the history left behind.  Proved below for histories of
+    user messages (`reachable_exact_messages_partial`: no decommission, so no remainder at all); for
+    decommissions (remainder ≤ the refund budget) and for the block hooks (minted rewards that cannot be paid are
+    burned again) the equality is judged on every implementation state (`chk c01.exact`), not proved. -/
+def Exact_Statement : Prop :=
+  ∀ (ops : List Op), RunOK {} ops → (∀ op ∈ ops, ∀ a sym, op ≠ .decommission a sym) →
+    ∀ d, (run {} ops).bal clpAcct d = recorded (run {} ops) d
+
+/-- one user message (create, add, remove by basis points or by units, swap on either route, bucket funding),
+    successful or failed, leaves the slack of every token exactly unchanged -/
+theorem messages_keep_slack_partial (s : St) (op : Op) (hinv : Solv s) (hm : UserMsg op) : SlackEq s (step s op) := by
+  cases op with
+  | create a sym n e =>
+    simp only [step, txR]; split
+    · exact createPool_slack hm ‹_›
+    · exact SlackEq.refl s
+  | add a sym n e =>
+    simp only [step, txR]; split
+    · exact addLiquidity_slack hm hinv ‹_›
+    · exact SlackEq.refl s
+  | remove a sym w =>
+    simp only [step, txR]; split
+    · exact removeLiquidity_slack hm hinv ‹_›
+    · exact SlackEq.refl s
+  | removeUnits a sym u =>
+    simp only [step, txR]; split
+    · exact removeLiquidityUnits_slack hm hinv ‹_›
+    · exact SlackEq.refl s
+  | swap a sent recv amt mn =>
+    simp only [step]; split
+    · exact swap_slack hm hinv ‹_›
+    · exact SlackEq.refl s
+  | bucket a d n =>
+    simp only [step, txR]; split
+    · exact addToBucket_slack hm ‹_›
+    · exact SlackEq.refl s
+  | setHeight h => exact fun _ => rfl
+  | setParams p => exact fun _ => rfl
+  | decommission a sym => exact absurd hm (by simp [UserMsg])
+  | endBlock => exact absurd hm (by simp [UserMsg])
+  | epochEnd => exact absurd hm (by simp [UserMsg])
+  | fund a d n => exact absurd hm (by simp [UserMsg])
+
+theorem userMsg_opOK (s : St) (op : Op) (hm : UserMsg op) : OpOK s op := by
+  cases op <;> simp_all [UserMsg, OpOK]
+
+/-- histories of user messages of any length: the slack of every token at the end is the slack at the start -/
+theorem reachable_slack_messages_partial (ops : List Op) (s : St) (hinv : Solv s) (hall : ∀ op ∈ ops, UserMsg op) :
+    SlackEq s (run s ops) := by
+  induction ops generalizing s with
+  | nil => exact SlackEq.refl s
+  | cons op rest ih =>
+    unfold run; simp only [List.foldl]
+    have hm := hall op List.mem_cons_self
+    have h1 := messages_keep_slack_partial s op hinv hm
+    have h2 := ih (step s op) (step_solvent s op hinv (userMsg_opOK s op hm)) (fun o ho => hall o (List.mem_cons_of_mem _ ho))
+    exact h1.trans h2
+
+/-- from genesis, after any history of user messages, the module account holds exactly the recorded amounts -/
+theorem reachable_exact_messages_partial (ops : List Op) (hall : ∀ op ∈ ops, UserMsg op) (d : String) :
+    (run {} ops).bal clpAcct d = recorded (run {} ops) d := by
+  have h := reachable_slack_messages_partial ops {} solv_init hall d
+  have h0 : ({} : St).bal clpAcct d = 0 := by simp [St.bal, AList.get]
+  have r0 : recorded ({} : St) d = 0 := by simp [recorded, AList.sumBy, AList.get]
+  omega
 
 /-- the Boolean the judge evaluates on implementation states is implied by the invariant -/
 theorem solvent_bool_of_solv (s : St) (h : Solv s) : solvent s = true := by
